@@ -227,14 +227,82 @@ def gen_inject_cases(rng, nscen, per):
 
 
 INJECT = {"quick": (40, 8), "thorough": (500, 20)}
+# free-running repetitions of domain-level scenarios (windows that contain no I/O point, e.g. between releasing the
+# index lock and writing the encoded index to index.domain): (cases, repetitions per case)
+STRESS = {"quick": (8, 8000), "thorough": (48, 60000)}
+
+
+def gen_stress_scenario(rng):
+    """bare domain.DB: one delete of a non-empty range that cuts into existing domains, racing with 1-3 writers that
+    commit new domains at free spots outside the deleted range (pairwise independent; every op must succeed)"""
+    nd = rng.randrange(3, 7)
+    doms = [(10 + 20 * i, rng.randrange(5, 11)) for i in range(nd)]
+    setup = [_dwrite(s, n, rng) for s, n in doms]
+    i = rng.randrange(nd)
+    j = rng.randrange(i, nd)
+    a = doms[i][0] + rng.randrange(1, doms[i][1] - 1)
+    b = doms[j][0] + rng.randrange(2, doms[j][1])
+    if b <= a:
+        b = a + 1
+    free = [1, 4] + [s + n + 1 for s, n in doms if n <= 8] + [10 + 20 * nd + 5, 10 + 20 * nd + 12]
+    free = [f for f in free if f + 2 <= a - 1 and f < doms[i][0] or f > doms[j][0] + doms[j][1]]
+    rng.shuffle(free)
+    threads = []
+    if rng.random() < 0.85:
+        threads.append([{"op": "ddelete", "a": a, "b": b}])
+    for f in free[:rng.randrange(1, 4)]:
+        threads.append([{"op": "dwrite", "start": f, "n": rng.choice([1, 2]), "chunks": 1, "commits": "end"}])
+    if len(threads) < 2:
+        threads.append([{"op": "dread"}])
+    return {"mode": "stress", "level": "domain", "persist": rng.choice(["always", "lazy"]), "groups": 0,
+            "kind": "del_vs_writers" if threads[0][0]["op"] == "ddelete" else "writers", "gc": False, "filecap": 0,
+            "setup": setup, "threads": threads, "kfrac": 0.0}
+
+
+def gen_stress_cases(rng, ncases, iters):
+    out = []
+    while len(out) < ncases:
+        sc = gen_stress_scenario(rng)
+        sc["iters"] = iters
+        sc["procs"] = [4, 8, 2][len(out) % 3]
+        out.append(sc)
+    return out
+
+
+def gen_rollover_case(rng):
+    """writers whose LAST commit lands on the file-size cap (the commit that rolls the writer over to the next file),
+    under lazy or always index persistence, nobody touching the channel afterwards: what a successful Close
+    acknowledged must be readable after close + reopen"""
+    T = rng.choice([2, 3, 4])
+    cap = rng.choice([32, 64, 128])
+    per = cap // 8
+    threads = []
+    for t in range(T):
+        g = t + 1
+        ops = []
+        nxt = 100000
+        for _ in range(rng.randrange(1, 4)):
+            n = rng.choice([per, per, per + 1, 2 * per, max(1, per - 1), rng.randrange(1, 2 * per + 2)])
+            chunks = rng.choice([1, 1, 2, n])
+            ops.append({"op": "write", "g": g, "start": nxt, "n": n, "step": 1, "chunks": max(1, chunks),
+                        "commits": rng.choice(["auto", "auto", "auto", "each", "end"])})
+            nxt += n + rng.choice([0, 1, 1000])
+            if rng.random() < 0.3:
+                ops.append({"op": "read", "g": rng.randrange(1, T + 1), "a": 0, "b": 10 ** 9})
+        threads.append(ops)
+    return {"procs": rng.choice([1, 2, 4, 8]), "persist": rng.choice(["lazy", "lazy", "always"]),
+            "gc": rng.random() < 0.3, "filecap": cap, "groups": T, "setup": [], "threads": threads}
 
 
 def gen_cases(rng, tier, n):
-    free = [gen_case(rng) for _ in range(n)]
+    free = [gen_rollover_case(rng) if i % 12 == 5 else gen_case(rng) for i in range(n)]
     ns, per = INJECT.get(tier, (24, 8))
     if n < COUNTS.get(tier, n):      # scaled-down batches (search phase)
         ns = max(4, ns * n // COUNTS[tier])
-    return free + gen_inject_cases(rng, ns, per)
+    sn, si = STRESS.get(tier, (4, 4000))
+    if n < COUNTS.get(tier, n):
+        sn = max(2, sn * n // COUNTS[tier])
+    return free + gen_inject_cases(rng, ns, per) + gen_stress_cases(rng, sn, si)
 
 
 def c_action(o):
@@ -312,6 +380,8 @@ def to_coq(case, r):
 
 def nontrivial(case, r):
     outs = r["conc"].get("outcomes") or []
+    if case.get("mode") == "stress":
+        return bool(outs) and all(any(x == "ok" for x in o) for o in outs) and (r.get("iters") or 0) > 0
     if case.get("mode") == "inject":
         # thread B was fired strictly inside thread A and both took effect
         ok = all(any(x == "ok" for x in o) for o in outs) if outs else False
@@ -328,6 +398,8 @@ def nontrivial(case, r):
 
 
 def histogram(case, r):
+    if case.get("mode") == "stress":
+        return ["stress:%s" % case.get("kind"), "stress_repetitions=%s" % r.get("iters")]
     if case.get("mode") == "inject":
         return ["inject:%s:%s" % (case["level"], case.get("kind")), "inject_points=%s" % r.get("points")]
     ks = ["procs=%d" % case["procs"], "persist=" + case["persist"], "gc=%s" % case["gc"],
@@ -342,6 +414,13 @@ def histogram(case, r):
 
 def neighbours(case, rng):
     out = []
+    if case.get("mode") == "stress":
+        for p in (2, 4, 8):
+            c = json.loads(json.dumps(case))
+            c["procs"] = p
+            c["iters"] = max(case.get("iters", 0), 20000)
+            out.append(c)
+        return out
     if case.get("mode") == "inject":
         for j in range(24):
             c = json.loads(json.dumps(case))
